@@ -19,6 +19,7 @@ import (
 )
 
 type Out struct {
+	mem                 *memOut // child mode: capture instead of writing files
 	cases, impl, oracle *bufio.Writer
 	files               []*os.File
 	stats               map[string]int
@@ -44,6 +45,10 @@ func newOut(dir, stream string) *Out {
 
 // emit one case: the line for the model and the implementation's observation.
 func (o *Out) emit(caseLine, implLine string) {
+	if o.mem != nil {
+		o.mem.Impl = append(o.mem.Impl, [2]string{caseLine, implLine})
+		return
+	}
 	fmt.Fprintln(o.cases, caseLine)
 	fmt.Fprintln(o.impl, implLine)
 	o.n++
@@ -54,18 +59,46 @@ func (o *Out) emit(caseLine, implLine string) {
 
 // nontrivial marks a case as distinct and non-trivial (by the stream's own rule).
 func (o *Out) nontrivial(key string) {
+	if o.mem != nil {
+		o.mem.Nontrivial = append(o.mem.Nontrivial, key)
+		return
+	}
 	if !o.seen[key] {
 		o.seen[key] = true
 	}
 }
 
-func (o *Out) count(k string) { o.stats[k]++ }
+func (o *Out) count(k string) {
+	if o.mem != nil {
+		o.mem.Counts = append(o.mem.Counts, k)
+		return
+	}
+	o.stats[k]++
+}
 
 // violation: the property itself fails on the implementation for this case.
 func (o *Out) violation(caseLine, what string, detail interface{}) {
 	b, _ := json.Marshal(map[string]interface{}{"case": caseLine, "what": what, "detail": detail})
+	if o.mem != nil {
+		o.mem.Oracle = append(o.mem.Oracle, string(b))
+		return
+	}
 	fmt.Fprintln(o.oracle, string(b))
 	o.nOracle++
+}
+
+// known: the property fails on this case exactly as a listed known finding describes (the
+// harness only classifies; bin/check consults known_findings.json, which is the authority).
+func (o *Out) known(tag, caseLine, what string, detail interface{}) {
+	b, _ := json.Marshal(map[string]interface{}{"case": caseLine, "what": what, "detail": detail, "known": tag})
+	if o.mem != nil {
+		o.mem.Oracle = append(o.mem.Oracle, string(b))
+		o.mem.Counts = append(o.mem.Counts, "known-"+tag)
+		return
+	}
+	fmt.Fprintln(o.oracle, string(b))
+	o.nOracle++
+	o.stats["known-"+tag]++
 }
 
 func (o *Out) close(dir, stream string) {
@@ -152,6 +185,10 @@ func main() {
 		os.Exit(2)
 	}
 	stream := flag.Arg(0)
+	if stream == "child" {
+		childLoop()
+		return
+	}
 	if stream == "replay" {
 		o := newOut(*out, "replay")
 		run(o, strings.Join(flag.Args()[1:], " "))
